@@ -20,7 +20,8 @@ RULE = ("case = series of 2..40 points (non-uniform with last step != first step
         " Round-4 classes: the count as NumPy integer scalar of any width (signed / unsigned), named arguments, series of 1001..1800 samples."
         " Round-6 classes: boolean values (array / list of bool) and lists with None for gaps."
         " Round-7 classes: deprecation-class warnings raised from the library's own files are violations (all checks)."
-        " Round-8 classes: see the interpreter dimension (python -O shards) of every check.")
+        " Round-8 classes: see the interpreter dimension (python -O shards) of every check."
+        " Round-10 classes: an earlier repeat request with the same count on a sibling grid (same length, first sample, last two samples and sum of abscissae).")
 REQUIRED_MONITORS = ["c12:repeat", "c12:composition", "c12:weaver"]
 ASSUMPTIONS = ["series of >= 2 points with strictly increasing abscissae"]
 NSHARDS = 16
